@@ -437,7 +437,7 @@ Proof.
     intros x Hx. apply in_map_iff in Hx. destruct Hx as (m & <- & _). reflexivity.
 Qed.
 
-Definition req_op (o : op) : Z := match o with OpApply cfg => requested_cfg cfg | _ => 0%Z end.
+Definition req_op (o : op) : Z := match o with OpApply cfg | OpRestart cfg => requested_cfg cfg | _ => 0%Z end.
 
 Lemma requested_cons o ops : requested (o :: ops) = (req_op o + requested ops)%Z.
 Proof. destruct o; cbn [requested fold_right req_op]; fold (requested ops); lia. Qed.
@@ -451,7 +451,8 @@ Qed.
 Lemma requested_nonneg ops : (0 <= requested ops)%Z.
 Proof.
   induction ops as [|o ops IH]; [cbn; lia|]. rewrite requested_cons.
-  destruct o; cbn [req_op]; try lia. pose proof (sum_counts_nonneg (cfg_ns cfg)). unfold requested_cfg, sum_counts in *. lia.
+  destruct o; cbn [req_op]; try lia;
+    pose proof (sum_counts_nonneg (cfg_ns cfg)); unfold requested_cfg, sum_counts in *; lia.
 Qed.
 
 Section Steps.
@@ -653,11 +654,21 @@ Section Steps.
     (forall n s, shard_in (st_ns (fst (stepS (st, sup) o))) n s ->
                  shard_in (st_ns st) n s \/ (st_idgen st <= sid s)%Z).
   Proof.
-    intros HI Hdom Hsum. destruct o as [cfg|name id|name id s1 term leader ens]; cbn [step req_op] in *.
-    - pose proof (sum_counts_nonneg (cfg_ns cfg)) as Hnn. unfold sum_counts in Hnn. fold (requested_cfg cfg) in Hnn.
+    intros HI Hdom Hsum.
+    assert (Happly : forall cfg, cfg_in_domain cfg -> (st_idgen st + requested_cfg cfg < I64)%Z ->
+      let r := match apply_cluster_changes S supplier cfg st sup with
+               | (None, sup1) => (st, sup1)
+               | (Some (st1, _, _), sup1) => (st1, sup1)
+               end in
+      Inv (fst r) /\ (st_idgen st <= st_idgen (fst r) <= st_idgen st + requested_cfg cfg)%Z /\
+      (forall n s, shard_in (st_ns (fst r)) n s -> shard_in (st_ns st) n s \/ (st_idgen st <= sid s)%Z)).
+    { intros cfg Hd Hs. cbn zeta.
+      pose proof (sum_counts_nonneg (cfg_ns cfg)) as Hnn. unfold sum_counts in Hnn. fold (requested_cfg cfg) in Hnn.
       destruct (apply_cluster_changes S supplier cfg st sup) as [[[[st1 ta] td]|] sup1] eqn:E; cbn [fst].
-      + destruct (apply_inv _ _ _ _ _ _ _ HI Hdom Hsum E) as (H1 & H2 & H3 & _). tauto.
-      + split; [exact HI | split; [lia | tauto]].
+      + destruct (apply_inv _ _ _ _ _ _ _ HI Hd Hs E) as (H1 & H2 & H3 & _). tauto.
+      + split; [exact HI | split; [lia | tauto]]. }
+    destruct o as [cfg|name id|name id s1 term leader ens|cfg]; cbn [step req_op] in *;
+      [exact (Happly cfg Hdom Hsum) | | | exact (Happly cfg Hdom Hsum)].
     - destruct (find_shard name id st) as [m|] eqn:Ef; cbn [fst]; [|split; [exact HI | split; [lia | tauto]]].
       destruct (is_deleting (m_st m)) eqn:Ed; cbn [fst]; [|split; [exact HI | split; [lia | tauto]]].
       destruct (delete_inv _ _ _ _ HI Ef Ed) as (H1 & H2 & H3). rewrite H2.
@@ -863,6 +874,7 @@ Definition example_ops : list op :=
     OpMeta 2 3 SSteady 0 (Some 1) [1; 2];
     OpApply (mkCfg [mkNc 2 3 2] [1; 2; 3]);
     OpDeleted 1 0; OpDeleted 1 1;
+    OpRestart (mkCfg [mkNc 2 3 2] [1; 2; 3]);
     OpApply (mkCfg [mkNc 2 3 2; mkNc 1 4 1] [1; 2]) ].
 
 Example example_history :
